@@ -5,6 +5,7 @@ mod util;
 mod c14;
 mod geom;
 mod c12;
+mod c17;
 mod c15;
 mod c02;
 mod c18;
@@ -45,6 +46,7 @@ fn main() {
         "c10" => geom::main_c10(&args),
         "c11" => geom::main_c11(&args),
         "c12" => c12::main(&args),
+        "c17" => c17::main(&args),
         "c15" => c15::main(&args),
         "c02" => c02::main(&args),
         "c18" => c18::main(&args),
